@@ -33,6 +33,32 @@ class P:
         return 2
 
 
+class Scale:
+    """a callable object with value semantics"""
+    def __init__(self, k):
+        self.k = k
+
+    def __call__(self, v):
+        return v * self.k
+
+    def __eq__(self, o):
+        return isinstance(o, Scale) and o.k == self.k
+
+    def __hash__(self):
+        return hash(self.k)
+
+    def __repr__(self):
+        return "Scale(%d)" % self.k
+
+
+@spec_class(bootstrap=True)
+class Tagged:
+    t: int = 0
+
+    def __repr__(self):          # a user-written repr that takes no formatting keywords
+        return "<Tagged %d>" % self.t
+
+
 class Q(P):           # plain subclass: inherits the generated methods
     pass
 
@@ -55,6 +81,11 @@ def instances():
     p = P(a=1, ref=7)
     p.f = p.m                        # differs from the instances above only *after* the method-valued attribute
     out.append(p)
+    out.append(P(a=1, f=Scale(2)))   # callable objects compare by value, like any other attribute value
+    out.append(P(a=1, f=Scale(2)))
+    out.append(P(a=1, f=Scale(3)))
+    out.append(P(a=4, ref=R))        # a spec class itself held as a value
+    out.append(P(a=4, ref=Tagged(t=1)))      # a nested spec instance with a user-written __repr__
     p = P(a=2)
     p.ref = p                        # self-referential
     out.append(p)
@@ -102,9 +133,11 @@ def check():
             y = copy.deepcopy(x)
             if not (y == x and x == y):
                 return n, "deepcopy(x) == x fails for instance #%d: %r vs %r" % (i, x, y)
-            kw = {a: getattr(x, a) for a in type(x).__spec_class__.attrs if hasattr(x, a) and a != "f"}
+            import inspect
+            is_m = inspect.ismethod(getattr(x, "f", None))
+            kw = {a: getattr(x, a) for a in type(x).__spec_class__.attrs if hasattr(x, a) and not (a == "f" and is_m)}
             z = type(x)(**kw)
-            if getattr(x, "f", None) is not None:
+            if is_m:
                 z.f = getattr(z, x.f.__name__)
             if not (z == x):
                 return n, "re-construction from its own attribute values is not equal for instance #%d: %r vs %r" % (i, x, z)
